@@ -39,7 +39,7 @@ def huge_nrec(r, reclen):
 
 
 def gen_ea(rng, tier, mult):
-    n = (500 if tier == "quick" else 8000) * mult
+    n = (1200 if tier == "quick" else 12000) * mult
     cases = []
     for ci in range(n):
         r = rng.fork("ea%d" % ci)
@@ -127,7 +127,7 @@ def gen_ea(rng, tier, mult):
 
 
 def gen_eq(rng, tier, mult):
-    n = (400 if tier == "quick" else 6000) * mult
+    n = (1000 if tier == "quick" else 10000) * mult
     cases = []
     for ci in range(n):
         r = rng.fork("eq%d" % ci)
@@ -151,6 +151,10 @@ def gen_eq(rng, tier, mult):
                 failing = 0
             if mode == "fill-drain":
                 padd = 85 if i < steps // 2 else 10
+                if i == steps // 2 and r.chance(1, 3):
+                    # drain while every request (the shrinking reallocs) is refused
+                    ops.append("failfrom 1")
+                    failing = 0
             elif mode == "sawtooth":
                 if length == 0:
                     phase_add = True
@@ -185,7 +189,7 @@ def gen_eq(rng, tier, mult):
 
 
 def gen_sm(rng, tier, mult):
-    n = (400 if tier == "quick" else 6000) * mult
+    n = (1000 if tier == "quick" else 10000) * mult
     cases = []
     for ci in range(n):
         r = rng.fork("sm%d" % ci)
@@ -234,8 +238,13 @@ def gen_sm(rng, tier, mult):
             for i in range(len(order) - 1, 0, -1):
                 j = r.below(i + 1)
                 order[i], order[j] = order[j], order[i]
+            refuse = r.chance(1, 3)
+            if refuse:
+                ops.append("failfrom 1")
             for i in order[:200]:
                 ops.append("sm_del %d" % i)
+            if refuse:
+                ops.append("failoff")
             ops.append("sm_min")
             ops.append("sm_add 77")
             ops.append("sm_min")
@@ -246,7 +255,7 @@ def gen_sm(rng, tier, mult):
 
 
 def gen_mp(rng, tier, mult):
-    n = (300 if tier == "quick" else 5000) * mult
+    n = (800 if tier == "quick" else 8000) * mult
     cases = []
     for ci in range(n):
         r = rng.fork("mp%d" % ci)
